@@ -117,6 +117,8 @@ func (c19) Gen(r *core.Rng, tier string, idx int) *core.Trace {
 		t.Cfg["tag"] = int64(r.U64() >> 2)
 		t.Cfg["n"] = r.Range(1, 8)
 		t.Cfg["sqcomp"] = int64(r.PickW(32, 2, 32, 32)) // xz is two orders of magnitude slower and irrelevant to metadata: rare
+		// the process's local time zone, in quarter hours east of UTC (the workspace's times are read in it)
+		t.Cfg["tz"] = core.PickOf[int64](r, 0, 0, -20, 22, -38, 52, -48, 56, 1, -1, r.Range(-48, 56))
 	}
 	t.CfgS["wl"] = wl
 	return t
@@ -380,6 +382,16 @@ type wsMeta struct {
 func execWorkspaceMeta(t *core.Trace) *core.Result {
 	res := core.NewResult()
 	wl := t.Sg("wl")
+	if tz := t.I("tz"); tz != 0 && tz >= -48 && tz <= 56 {
+		saved := time.Local
+		time.Local = time.FixedZone("SIM", int(tz)*900)
+		defer func() { time.Local = saved }()
+		if tz < 0 {
+			res.Probe("zone-west-of-utc")
+		} else {
+			res.Probe("zone-east-of-utc")
+		}
+	}
 	tag := uint64(t.I("tag"))
 	r := core.NewRng(tag ^ 0xc19)
 	n := int(t.I("n"))
